@@ -25,6 +25,8 @@ By convention, the folder "web" in the get_store() holds web interface and can b
 
 """
 from os import makedirs, name, remove
+import os
+import uuid
 from pathlib import Path
 import json
 from io import BytesIO
@@ -479,7 +481,9 @@ class FileStore(Store):
 
     def store(self, key, data, metadata):
         self.path_for_key(key).parent.mkdir(parents=True, exist_ok=True)
-        self.path_for_key(key).write_bytes(data)
+        # unpublish the old metadata first: it must never be paired with the new data
+        self.metadata_path_for_key(key).unlink(missing_ok=True)
+        self._write_file(self.path_for_key(key), data)
         self.store_metadata(
             key, self.finalize_metadata(metadata, key=key, is_dir=False, data=data)
         )
@@ -487,13 +491,24 @@ class FileStore(Store):
         self.on_metadata_changed(key)
 
     def store_metadata(self, key, metadata):
-        self.metadata_path_for_key(key).parent.mkdir(parents=True, exist_ok=True)
         metadata = self.finalize_metadata(
             metadata, key=key, is_dir=self.is_dir(key), update=True
         )
-        with open(self.metadata_path_for_key(key), "w") as f:
-            json.dump(metadata, f)
+        self._write_file(
+            self.metadata_path_for_key(key), json.dumps(metadata).encode("utf-8")
+        )
         self.on_metadata_changed(key)
+
+    def _write_file(self, path, data):
+        "Write into a temporary file in the hidden metadata folder, then move it into place atomically"
+        folder = path.parent
+        if folder.name != self.METADATA:
+            folder = folder / self.METADATA
+        folder.mkdir(parents=True, exist_ok=True)
+        tmp = folder / ("tmp_" + uuid.uuid4().hex)
+        with open(tmp, "wb") as f:
+            f.write(data)
+        os.replace(tmp, path)
 
     def remove(self, key):
         try:
